@@ -74,12 +74,12 @@ class StreamBuffer:
     def complete(self) -> bool:
         return self._complete and len(self.buffer) == 0
 
-    async def push(self, data: bytes) -> None:
+    async def push(self, data: bytes, wait: bool = True) -> None:
         if self._complete:
             raise BufferCompleteError()
         self.buffer.extend(data)
         await self._is_empty.clear()
-        if len(self.buffer) >= BUFFER_HIGH_WATER:
+        if wait and len(self.buffer) >= BUFFER_HIGH_WATER:
             await self._paused.wait()
             await self._paused.clear()
 
@@ -270,7 +270,9 @@ class H2Protocol:
             elif isinstance(event, (Body, Data)):
                 self.priority.unblock(event.stream_id)
                 await self.has_data.set()
-                await self.stream_buffers[event.stream_id].push(event.data)
+                await self.stream_buffers[event.stream_id].push(
+                    event.data, getattr(event, "wait", True)
+                )
             elif isinstance(event, (EndBody, EndData)):
                 self.stream_buffers[event.stream_id].set_complete()
                 self.priority.unblock(event.stream_id)
